@@ -5,6 +5,7 @@ From Coq Require Import ZArith List Bool.
 From Low Require Import Lib.MachInt Lib.Bits Lib.BitSeq Model.Rank Spec.RankSpec Proofs.RankProofs.
 From Low Require Import Model.Rank32 Model.RankOps Model.BitmapOf Spec.RankLawsSpec Spec.OfQuerySpec
   Proofs.Rank32Proofs Proofs.RankLaws Proofs.RankIndexLaws Proofs.RankConcat Proofs.RankHistory Proofs.RankCompose Proofs.RankComplement Proofs.RankConcat128 Proofs.RankContract.
+From Low Require Import Model.BitmapMask12 Model.RankTab Proofs.RankTabProofs.
 Import ListNotations.
 Open Scope Z_scope.
 
@@ -197,6 +198,16 @@ Theorem C01_Rank128_contract : forall ws ridx i, words_ok ws -> 0 <= i < 64 * zl
 Proof. exact Rank128_contract. Qed.
 Print Assumptions C01_Rank128_contract.
 
+(** the queries as the code has them - reading [Mask[j]] from the TABLE that initMasks of bitmap/mask.go fills - are the
+    queries of Model/Rank.v (closed form [2^j - 1]); so every theorem above holds for the table-reading code *)
+Theorem C01_Rank64_reads_Mask_table : forall ws ridx i, Rank64_tab ws ridx i = Rank64 ws ridx i.
+Proof. exact Rank64_tab_eq. Qed.
+Print Assumptions C01_Rank64_reads_Mask_table.
+
+Theorem C01_Rank128_reads_Mask_table : forall ws ridx i, Rank128_tab ws ridx i = Rank128 ws ridx i.
+Proof. exact Rank128_tab_eq. Qed.
+Print Assumptions C01_Rank128_reads_Mask_table.
+
 (** the three indexes side by side are the running sums of the per-word bit counts (op bitmap.IndexRank/all, /rle) *)
 Theorem C01_indexes_running_sums : forall ws, words_ok ws ->
   (IndexRank64 ws false, IndexRank64 ws true, IndexRank128 ws) = spec_indexes ws.
@@ -303,7 +314,7 @@ Example C01_laws_nonvacuous :
   hrun (map build [ws; [1; 1; 1]]) [HQ F128 0 130; HQ F128 1 130; HSet 0 1 0; HQ (F64 true) 0 130; HQ F128 1 130]
     = Some [OQ (Some (67, 1)); OQ (Some (3, 0)); OT (Some 4); OQ (Some (3, 1)); OQ (Some (3, 0))] /\
   query F128 (map not64 ws) 130 = Some (63, 0) /\
-  Rank64 ws [0; 0; 66; 7; 7] 130 = Some (67, 1) /\ Rank128 ws [7; 66] 130 = Some (67, 1) /\
+  Rank64 ws [0; 0; 66; 7; 7] 130 = Some (67, 1) /\ Rank64_tab ws [0; 0; 66] 130 = Some (67, 1) /\ Rank128 ws [7; 66] 130 = Some (67, 1) /\
   ToArray ws = Some ([0; 2] ++ map Z.of_nat (seq 64 64) ++ [129; 130]) /\ Get1 ws 130 = Some 1.
 Proof. vm_compute. intuition congruence. Qed.
 
